@@ -27,6 +27,11 @@ M = {
                                       "    if bias is not None:\n        b = bias.reshape(-1, 1, 1, 1)\n        b += conv_out.mean() * 0 + 1\n        conv_out += b\n        b -= 1\n", "tests/test_layers.py"),
     "max_backward-mask=a": ("synapgrad/cpu_ops.py", "def max_backward(grad, a, axis, keepdims, max_indices=None):\n    # Create mask of ones and zeros, where the maximum value is 1 \n    mask = np.zeros_like(a)\n",
                             "def max_backward(grad, a, axis, keepdims, max_indices=None):\n    # Create mask of ones and zeros, where the maximum value is 1 \n    if max_indices is None:\n        max_indices = np.argmax(a, axis=axis, keepdims=True)\n    mask = a\n    mask *= 0\n", "tests/test_ops.py"),
+    "first_extremum_mask-mask-is-view-of-a": ("synapgrad/cpu_ops.py", "    flat_mask = np.zeros_like(flat)\n", "    flat_mask = flat\n    flat_mask *= 0\n", "tests/test_ops.py"),
+    "first_extremum_mask-lambda-arg_fn": ("synapgrad/cpu_ops.py", "        mask = first_extremum_mask(a, axis, np.argmax)\n",
+                                          "        mask = first_extremum_mask(a, axis, lambda f, axis, keepdims: np.argmax(f, axis=axis, keepdims=keepdims))\n", "tests/test_ops.py"),
+    "matmul_backward-scale-grad-inplace": ("synapgrad/cpu_ops.py", "    if b.ndim == 1: grad = grad[..., np.newaxis]\n", "    if b.ndim == 1: grad = grad[..., np.newaxis]\n    grad *= 1.0\n    grad += 0.5 * 0\n    np.negative(grad, out=grad); np.negative(grad, out=grad)\n", "tests/test_ops.py"),
+    "squeeze_forward-dims-sorted-inplace-on-a": ("synapgrad/cpu_ops.py", "    if axis is None:\n        return np.squeeze(a)\n", "    if axis is None:\n        a += 0\n        return np.squeeze(a)\n", "tests/test_ops.py"),
     "batch_norm-x_norm=x-inplace": ("synapgrad/cpu_ops.py", "    x_norm = (x - mean.reshape(keepdims_shape)) / std.reshape(keepdims_shape)\n",
                                    "    x_norm = x\n    x_norm -= mean.reshape(keepdims_shape)\n    x_norm /= std.reshape(keepdims_shape)\n", "tests/test_layers.py"),
     "sgd-weight-decay-into-grad-buffer": ("synapgrad/optim/optimizers.py", "                    grad = grad + self.weight_decay*p.data\n                \n                # Momentum",
